@@ -55,6 +55,62 @@ def _module_name(rel: str) -> str:
     return ".".join(parts)
 
 
+def _replace_child(parent, old, new):
+    if parent is None:
+        return
+    for f, v in ast.iter_fields(parent):
+        if v is old:
+            setattr(parent, f, new)
+            return
+        if isinstance(v, list):
+            for i, x in enumerate(v):
+                if x is old:
+                    v[i] = new
+                    return
+
+
+def _canon_isinstance(tree):
+    """`isinstance(x, A) or isinstance(x, B)` is the same test as `isinstance(x, (A, B))`: consecutive isinstance calls on one
+    subject inside an `or` are merged into the tuple form (in place, before parent links are set)."""
+
+    class T(ast.NodeTransformer):
+        def visit_BoolOp(self, node):
+            self.generic_visit(node)
+            if not isinstance(node.op, ast.Or):
+                return node
+            out = []
+            for v in node.values:
+                if (
+                    out
+                    and _is_isinstance(v)
+                    and _is_isinstance(out[-1])
+                    and ast.dump(v.args[0]) == ast.dump(out[-1].args[0])
+                ):
+                    prev = out[-1]
+                    elts = _cls_elts(prev.args[1]) + _cls_elts(v.args[1])
+                    merged = ast.Call(func=prev.func, args=[prev.args[0], ast.Tuple(elts=elts, ctx=ast.Load())], keywords=[])
+                    ast.copy_location(merged, prev)
+                    ast.copy_location(merged.args[1], prev.args[1])
+                    out[-1] = merged
+                else:
+                    out.append(v)
+            if len(out) == 1:
+                return out[0]
+            node.values = out
+            return node
+
+    T().visit(tree)
+    ast.fix_missing_locations(tree)
+
+
+def _is_isinstance(v):
+    return isinstance(v, ast.Call) and isinstance(v.func, ast.Name) and v.func.id == "isinstance" and len(v.args) == 2 and not v.keywords
+
+
+def _cls_elts(t):
+    return list(t.elts) if isinstance(t, ast.Tuple) else [t]
+
+
 def _set_parents(tree):
     for node in ast.walk(tree):
         for child in ast.iter_child_nodes(node):
@@ -199,6 +255,42 @@ class Model:
         self._const_cache: dict = {}
         self._load()
         self._link()
+        self._canon_operand_access()
+
+    # -- canonical forms ------------------------------------------------------
+    def _canon_operand_access(self):
+        """`self.operand("p")` and `self.p` denote the same value when no class attribute shadows the parameter p (then
+        `self.p` is served by Expr.__getattr__ from the operands).  All rules see the attribute form; the shadowed case -
+        where the two differ - keeps the call.  Done in place on the syntax tree, positions kept."""
+        for c in self.expr_classes():
+            for mem in c.members.values():
+                if mem.kind == "attr" or not isinstance(mem.node, (ast.FunctionDef, ast.AsyncFunctionDef)):
+                    continue
+                users = [k for k in self.subclasses(c) if k.provider(mem.name) is not None and k.provider(mem.name).node is mem.node]
+                if not users:
+                    continue
+                for node in list(ast.walk(mem.node)):
+                    if not (isinstance(node, ast.Call) and isinstance(node.func, ast.Attribute) and node.func.attr == "operand" and isinstance(node.func.value, ast.Name) and node.func.value.id == "self" and len(node.args) == 1 and not node.keywords and isinstance(node.args[0], ast.Constant) and isinstance(node.args[0].value, str)):
+                        continue
+                    pname = node.args[0].value
+                    if not pname.isidentifier():
+                        continue
+                    ok = True
+                    for k in users:
+                        try:
+                            if pname not in self.parameters(k) or self.attr_kind(k, pname)[0] != "operand":
+                                ok = False
+                        except AnalysisError:
+                            ok = False
+                        if not ok:
+                            break
+                    if not ok:
+                        continue
+                    new = ast.Attribute(value=node.func.value, attr=pname, ctx=ast.Load())
+                    ast.copy_location(new, node)
+                    new._parent = getattr(node, "_parent", None)  # type: ignore[attr-defined]
+                    node.func.value._parent = new  # type: ignore[attr-defined]
+                    _replace_child(getattr(node, "_parent", None), node, new)
 
     # -- loading -----------------------------------------------------------
     def _load(self):
@@ -218,6 +310,7 @@ class Model:
                     tree = ast.parse(src, filename=path)
                 except (SyntaxError, OSError, UnicodeDecodeError) as e:
                     raise AnalysisError(f"cannot parse {rel}: {e}")
+                _canon_isinstance(tree)
                 _set_parents(tree)
                 mod = Module(_module_name(rel), path, rel, tree, src)
                 _collect_imports(mod)
